@@ -816,6 +816,11 @@ func (c *VirtualTable) Commit(ctx context.Context) error {
 	return nil
 }
 
+// InTransaction reports whether a transaction that has written to the table is open.
+func (c *VirtualTable) InTransaction() bool {
+	return c.txStart != nil
+}
+
 func (c *VirtualTable) Rollback() error {
 	dbg("ROLLBACK\n")
 	if c.txStart != nil {
@@ -927,6 +932,10 @@ func Vacuum(ctx context.Context, tableName string, beforeTime time.Time) error {
 	table := GetTable(tableName)
 	if table == nil {
 		return fmt.Errorf("table not found: %s", tableName)
+	}
+	if table.InTransaction() {
+		// a vacuum commits: it would publish the transaction's writes before COMMIT
+		return fmt.Errorf("vacuum: table %s has a transaction in progress", tableName)
 	}
 
 	db, err := table.Tree.Root.Clone(ctx)
